@@ -13,8 +13,9 @@ Model of pym/bob/audit.py.
                       - `struct.pack` rejects lengths >= 2^32 and integers outside int64: `fits`/`digest?`.
 * `Artifact`        one audit record (`Artifact.__data`), split into the `dependencies` entry, the cached
                     `artifact-id` entry and all other entries.
-* `Audit`           `(artifact, references)` with `merge`, `addArg/addTool/setSandbox`, `validate`
-                    (worklist loop with `done` set), `getReferencedBuildIds` (worklist loop without), `saveLoad`.
+* `Audit`           `(artifact, references)` with `merge`, `addArg/addTool/setSandbox`, `setRecipesAudit`, `validate`
+                    (worklist loop with `done` set), `getReferencedBuildIds` (worklist loop without), `saveLoad`,
+                    `loadDebug` (the `--debug audit` validation on load, which checks the pre-load state).
 
 The hash is a parameter `H : Bytes → Id` everywhere (SHA-1 in the driver).
 Python sets are lists without duplicates; `set.pop()` takes the head (the verdicts that are compared do not
@@ -381,6 +382,14 @@ def setSandbox (H : Bytes → Id) (self other : Audit) : Audit :=
   let m := merge H self other
   { m with artifact := m.artifact.setSandbox (other.artifact.getId H) }
 
+/-- `setRecipesAudit(recipesAudit)`: the entry with the empty name is the recipes audit of the project itself
+(`recipesAudit.get("")`: an absent key and a stored `None` are alike), every other entry a layer;
+`audit and audit.dump()` stores `None` for a layer without audit.  `ScmAudit.dump()` is external: the values
+are the dumped data. -/
+def setRecipesAudit (self : Audit) (ra : List (Str × Option Data)) : Audit :=
+  let layers := (ra.filter fun p => p.1 ≠ []).map fun p => (p.1, p.2.getD .null)
+  { self with artifact := (self.artifact.setRecipes ((dictGet ra []).bind id)).setLayers layers }
+
 /-- the tree `save` writes: every record dumped (`dump()` leaves the ids cached in the live objects too) -/
 def save (H : Bytes → Id) (a : Audit) : Audit :=
   { artifact := a.artifact.dump H,
@@ -420,6 +429,14 @@ inductive RResult where
   | keyError
   | outOfFuel
   deriving DecidableEq, Inhabited
+
+/-- `Audit.load` under `DEBUG['audit']`: `self.__validate()` runs *before* `__artifact` and `__references`
+are assigned from the tree, so it checks the state the object had before the load (`error i` = ParseError
+"Incomplete audit: missing i").  `fromFile`/`fromByteStream` call it on a fresh `cls()`. -/
+def loadDebug (H : Bytes → Id) (self tree : Audit) : Except Id Audit :=
+  match validate self with
+  | .missing i => .error i
+  | _ => .ok (load H tree)
 
 /-- the `while refs:` loop of `getReferencedBuildIds` (no `done` set in the source) -/
 def rbiLoop (refs : List (Id × Artifact)) : Nat → List Id → List Id → RResult
